@@ -1,6 +1,15 @@
 from ..runner import Harness, Spec
 from ..translate import go_translator
 
+import os
+import sys
+
+# the race-detector run of the concurrency cases costs a -race build of the package: thorough tier only
+_THOROUGH = "thorough" in sys.argv or os.environ.get("VERIF_TIER") == "thorough"
+_RACE = [Harness(name="concurrency-race", module="config/confighttp", pkg="config/confighttp",
+                 files={"zz_verif_c16_test.go": "c16/compression_test.go"},
+                 test="TestVerifC16Conc", driver="drv_c16", n={"quick": 40, "thorough": 300}, timeout_s=1500, race=True)] if _THOROUGH else []
+
 SPEC = Spec(
     pid="C16",
     lean_modules=["OtelVerif.Props.C16"],
@@ -9,7 +18,7 @@ SPEC = Spec(
         Harness(name="compression", module="config/confighttp", pkg="config/confighttp",
                 files={"zz_verif_c16_test.go": "c16/compression_test.go"},
                 test="TestVerifC16", driver="drv_c16", n={"quick": 1500, "thorough": 20000}, timeout_s=1500),
-    ],
+    ] + _RACE,
     rule="one case = one real server (ServerConfig.ToServer: random compression_algorithms list - nil/default, random subsets in random "
          "order, lists with unknown names, empty list - and a max_request_body_size placed at body+-1, wire+-1, inside the compressed "
          "header, half the body, roomy, or <=0 = default) + one real client (ClientConfig.ToClient with every compression type and "
@@ -17,7 +26,7 @@ SPEC = Spec(
          "library directly at levels the client cannot select, header preset -> client skip branch), garbage (hostile/corrupted/"
          "truncated streams and odd header values). Bodies: zeros, text pattern, pseudo-random incompressible, explicit bytes; "
          "corpus first (3 reproduced defects, 1 MiB zip-bomb per algorithm, 64 KiB+-1 per algorithm, thorough: 1 MiB+-1 and all "
-         "decoder-list subsets x client types). 1 case in 8 (and 3 corpus cases) builds SEVERAL servers in one process: A with WithDecoder (a new name and/or an override of a built-in) and a restricted list, then B default/random, sometimes C restricted, probing that A still rejects what it did not list and that later servers are unaffected by the registration of A. non-trivial = some request was encoded, or rejected/panicked, or had a body within "
+         "decoder-list subsets x client types). 1 case in 8 (and 3 corpus cases) builds SEVERAL servers in one process: A with WithDecoder (a new name and/or an override of a built-in) and a restricted list, then B default/random, sometimes C restricted, probing that A still rejects what it did not list and that later servers are unaffected by the registration of A; half of them also register a pass-through decoder (fn returns nil,nil) under a non-empty name with bodies at limit-1/limit/limit+1/far beyond. 1 case in 24 (and 7 corpus cases, every algorithm) is a CONCURRENCY case (monitor): handlers that Close r.Body 0-2 times, then 4-16 requests with distinct self-describing bodies (some multi-block) held at a barrier inside the handler so that they overlap for certain; oracle: every handler read exactly its own client bytes; thorough repeats 300 such cases under -race. non-trivial = some request was encoded, or rejected/panicked, or had a body within "
          "+-1 of the limit; distinct = distinct op sequences (sha1 of the op lines).",
     trusted_base=[
         "Lean 4.33.0 kernel; axioms per theorem listed under axioms_per_theorem (subset of propext, Classical.choice, Quot.sound)",
